@@ -312,11 +312,15 @@ fn decorate_sinks(v: &mut Value, rng: &mut Rng, sync: bool) {
 macro_rules! finish_layer {
     ($b:expr, $o:expr, $w:expr) => {{
         let o: &Value = $o;
-        let span_events = match o["span_events"].as_str().unwrap_or("none") {
-            "new_close" => FmtSpan::NEW | FmtSpan::CLOSE,
-            "active" => FmtSpan::ACTIVE,
-            "full" => FmtSpan::FULL,
-            _ => FmtSpan::NONE,
+        let span_events = {
+            let m = span_mask(o["span_events"].as_str().unwrap_or("none"));
+            let mut f = FmtSpan::NONE;
+            for (bit, flag) in [(1u8, FmtSpan::NEW), (2, FmtSpan::ENTER), (4, FmtSpan::EXIT), (8, FmtSpan::CLOSE)] {
+                if m & bit != 0 {
+                    f = f | flag;
+                }
+            }
+            f
         };
         let l = $b
             .with_ansi(o["ansi"].as_bool().unwrap_or(false))
@@ -501,7 +505,7 @@ impl Engine for FmtEngine {
             "format": format, "timer": rng.chance(1, 3), "ansi": format != "json" && rng.chance(1, 4),
             "target": rng.chance(3, 4), "level": rng.chance(4, 5), "thread_ids": rng.chance(1, 4), "thread_names": rng.chance(1, 4),
             "file": rng.chance(1, 4), "line": rng.chance(1, 4),
-            "span_events": *rng.pick(&["none", "none", "new_close", "active", "full"]),
+            "span_events": if rng.chance(1, 3) { format!("m{}", rng.range(1, 15)) } else { rng.pick(&["none", "none", "new_close", "active", "full"]).to_string() },
             "flatten": rng.chance(1, 3), "current_span": rng.chance(3, 4), "span_list": rng.chance(3, 4),
         });
         let mut next_sink = 0;
@@ -648,12 +652,22 @@ fn val_tokens(s: &str) -> Vec<u64> {
 
 const LEVEL_NAMES: [&str; 6] = ["", "ERROR", "WARN", "INFO", "DEBUG", "TRACE"];
 
+/// Lifecycle points as a mask (1 NEW, 2 ENTER, 4 EXIT, 8 CLOSE): the presets by name, any subset as "m<mask>".
+pub fn span_mask(s: &str) -> u8 {
+    match s {
+        "new_close" => 1 | 8,
+        "active" => 2 | 4,
+        "full" => 15,
+        _ => s.strip_prefix('m').and_then(|n| n.parse::<u8>().ok()).unwrap_or(0) & 15,
+    }
+}
+
 fn oracle(cfg: &Value, hist: &[H]) {
     let opts = &cfg["opts"];
     let format = opts["format"].as_str().unwrap_or("full");
     let writer = &cfg["writer"];
     let nsinks = cfg["nsinks"].as_u64().unwrap_or(1) as usize;
-    let span_events = opts["span_events"].as_str().unwrap_or("none");
+    let span_events = span_mask(opts["span_events"].as_str().unwrap_or("none"));
     let sinks: Vec<Vec<SinkCall>> = {
         let s = SINKS.lock().unwrap();
         (0..nsinks).map(|i| s.get(i).map(|x| x.lock().unwrap().calls.clone()).unwrap_or_default()).collect()
@@ -679,21 +693,21 @@ fn oracle(cfg: &Value, hist: &[H]) {
             "push" => {
                 let mut sc = h.scope.clone();
                 sc.push(h.uid);
-                if matches!(span_events, "new_close" | "full") {
+                if span_events & 1 != 0 {
                     // `new` is emitted before the span is entered: its scope is the parents plus the span itself
                     exps.push(Exp { t: h.t, inv: h.inv, ret: h.ret, site: h.site, uid: 0, msg: "new", scope: sc.clone(), gi: h.gi });
                 }
-                if matches!(span_events, "active" | "full") {
+                if span_events & 2 != 0 {
                     exps.push(Exp { t: h.t, inv: h.inv, ret: h.ret, site: h.site, uid: 0, msg: "enter", scope: sc.clone(), gi: h.gi });
                 }
             }
             "pop" => {
                 let mut sc = h.scope.clone();
                 sc.push(h.uid);
-                if matches!(span_events, "active" | "full") {
+                if span_events & 4 != 0 {
                     exps.push(Exp { t: h.t, inv: h.inv, ret: h.ret, site: h.site, uid: 0, msg: "exit", scope: sc.clone(), gi: h.gi });
                 }
-                if matches!(span_events, "new_close" | "full") {
+                if span_events & 8 != 0 {
                     exps.push(Exp { t: h.t, inv: h.inv, ret: h.ret, site: h.site, uid: 0, msg: "close", scope: sc.clone(), gi: h.gi });
                 }
             }
